@@ -1550,25 +1550,28 @@ theorem segRoundTrip_closed (offs : List (Point R)) (P : Point R) (after : List 
 theorem segRoundTrip_faithful (pts : List (Point R)) (h : SegFaithful pts) :
     segRoundTrip pts = some (drawContour ⟨none, (rotateToFirstOn pts).map Point.strip⟩) := by
   match pts, h with
-  | [], h => exact absurd h (by simp [SegFaithful])
+  | [], h => exact absurd h (by simp [SegFaithful, segFaithful])
   | [p], h =>
-    have hp : p.seg = some Seg.move := h
+    have hp : p.seg = some Seg.move := by simpa [SegFaithful, segFaithful] using h
     rw [segRoundTrip_single p hp]
     simp [rotateToFirstOn, firstOn, hp]
   | p :: q :: r, h =>
     by_cases hm : p.seg = some Seg.move
-    · have h' : segsOK false (q :: r) = true := by simpa [SegFaithful, hm] using h
+    · have h' : segsOK false (q :: r) = true := by simpa [SegFaithful, segFaithful, hm] using h
       rw [segRoundTrip_open p q r hm h']
       simp [rotateToFirstOn, firstOn, hm]
     · cases hfo : firstOn (p :: q :: r) with
       | none =>
         have h' : ∀ l, (q :: r).getLast? = some l → p.pt ≠ l.pt := by
-          simpa [SegFaithful, hm, hfo] using h
+          intro l hl
+          have := h
+          simp only [SegFaithful, segFaithful, hm, if_false, hfo, hl, decide_eq_true_eq] at this
+          exact this
         rw [segRoundTrip_offonly p q r hfo h']
         simp [rotateToFirstOn, hfo]
       | some i =>
         have h' : segsOK false ((p :: q :: r).drop (i + 1) ++ (p :: q :: r).take (i + 1)) = true := by
-          simpa [SegFaithful, hm, hfo] using h
+          simpa [SegFaithful, segFaithful, hm, hfo] using h
         obtain ⟨offs, P, after, hpts, hlen, hoffs, hPs⟩ := firstOn_some hfo
         obtain ⟨s1, s2, s3, s4⟩ := split_at offs P after
         rw [← hlen, hpts, s1, s2] at h'
@@ -1579,6 +1582,17 @@ theorem segRoundTrip_faithful (pts : List (Point R)) (h : SegFaithful pts) :
         simpa [List.append_assoc] using hc
 
 end Seg
+
+theorem present_strip (l : List (Point R)) : present ((l.map Point.strip).map (·.ident)) = [] := by
+  induction l with
+  | nil => rfl
+  | cons p ps ih => simpa [Point.strip] using ih
+
+/-- a finite check suffices for acyclicity -/
+theorem acyclic_of_forall [Add R] [Mul R] [OfNat R 0] [OfNat R 1] (l : Layer R) (rank : String → Nat)
+    (h : ∀ p ∈ l, ∀ k ∈ p.2.components, rank k.base < rank p.1) : Acyclic l rank := by
+  intro n g hg k hk
+  exact h (n, g) (AL.mem_of_get? hg) k hk
 
 end Pen
 end DefconModel
